@@ -21,7 +21,7 @@ OrInf(r) == IF r = 0 THEN Inf ELSE r
 
 MonInit == [viol |-> {}, cfg |-> [cUp |-> 0, cDown |-> 0, sUp |-> 0, sDown |-> 0, ignore |-> FALSE, cDecl |-> 0],
             cc |-> [server |-> "none", client |-> "none"], rate |-> [server |-> 0, client |-> 0],
-            rawClient |-> FALSE]
+            rawClient |-> FALSE, nconn |-> 0]
 
 \* server -> client direction: limited by the server's own MaxTx and the client's declared receive rate
 ServerTx(c) == LET decl == IF c.cDecl < 0 THEN 0 ELSE c.cDecl IN
@@ -36,21 +36,27 @@ MonStep(m, e, ln) ==
   CASE e.ev = "Reset" -> [MonInit EXCEPT !.viol = m.viol, !.rawClient = e.raw,
                             !.cfg = [cUp |-> e.cUp, cDown |-> e.cDown, sUp |-> e.sUp, sDown |-> e.sDown, ignore |-> e.ignore, cDecl |-> e.cDecl]]
     [] e.ev = "CC" ->
-         LET want == Expect(m.cfg, e.side) IN
+         LET want == Expect(m.cfg, e.side)
+             judge == m.cfg.cDecl # -2 \/ e.side = "client"   \* cDecl = -2: two racing declarations, the winner is not known
+         IN
          [m EXCEPT !.cc = [m.cc EXCEPT ![e.side] = e.kind], !.rate = [m.rate EXCEPT ![e.side] = e.rate],
                    !.viol = VAll(m.viol, e, ln,
-            << <<"Rate_ExceedsOwnLimit",  e.kind = "brutal" /\ e.rate > OrInf(IF e.side = "server" THEN m.cfg.sUp ELSE m.cfg.cUp)>>,
-               <<"Rate_ExceedsPeerLimit", e.kind = "brutal" /\ e.rate > (IF e.side = "server" THEN OrInf(IF m.cfg.cDecl < 0 THEN 0 ELSE m.cfg.cDecl) ELSE OrInf(m.cfg.sDown))>>,
-               <<"Rate_NotTheMinimum",    e.kind = "brutal" /\ want # 0 /\ e.rate # want>>,
-               <<"FixedRateWithoutLimit", e.kind = "brutal" /\ want = 0>>,
+            << \* the rate is negotiated once per connection: a second controller installation re-negotiates a rate
+               \* that has already been reported
+               <<"Renegotiated", m.cc[e.side] # "none">>,
+               <<"Rate_ExceedsOwnLimit",  e.kind = "brutal" /\ e.rate > OrInf(IF e.side = "server" THEN m.cfg.sUp ELSE m.cfg.cUp)>>,
+               <<"Rate_ExceedsPeerLimit", judge /\ e.kind = "brutal" /\ e.rate > (IF e.side = "server" THEN OrInf(IF m.cfg.cDecl < 0 THEN 0 ELSE m.cfg.cDecl) ELSE OrInf(m.cfg.sDown))>>,
+               <<"Rate_NotTheMinimum",    judge /\ e.kind = "brutal" /\ want # 0 /\ e.rate # want>>,
+               <<"FixedRateWithoutLimit", judge /\ e.kind = "brutal" /\ want = 0>>,
                <<"FixedRateZero",         e.kind = "brutal" /\ e.rate <= 0>>,
-               <<"ControllerInsteadOfFixedRate", e.kind = "cc" /\ want # 0>> >>)]
+               <<"ControllerInsteadOfFixedRate", judge /\ e.kind = "cc" /\ want # 0>> >>)]
     [] e.ev = "Handshake" ->
          [m EXCEPT !.viol = VAll(m.viol, e, ln,
             << <<"Reported_ClientTx", e.tx # (IF m.cc.client = "brutal" THEN m.rate.client ELSE 0)>> >>)]
     [] e.ev = "Connect" ->
-         [m EXCEPT !.viol = VAll(m.viol, e, ln,
-            << <<"Reported_ServerTx", e.tx # (IF m.cc.server = "brutal" THEN m.rate.server ELSE 0)>> >>)]
+         [m EXCEPT !.nconn = @ + 1, !.viol = VAll(m.viol, e, ln,
+            << <<"Renegotiated", m.nconn >= 1>>,
+               <<"Reported_ServerTx", e.tx # (IF m.cc.server = "brutal" THEN m.rate.server ELSE 0)>> >>)]
     [] e.ev = "End" ->
          [m EXCEPT !.viol = VAll(m.viol, e, ln,
             << <<"NoControllerInstalled", m.cc.server = "none" \/ (~m.rawClient /\ m.cc.client = "none")>> >>)]
